@@ -278,8 +278,19 @@ def snapshot(root):
 # ---------------------------------------------------------------------------------------------
 # worker pool: the code under test runs in forked workers with stdout silenced
 # ---------------------------------------------------------------------------------------------
-class CaseTimeout(Exception):
+class CaseTimeout(BaseException):     # (not an Exception: the drivers record exceptions of the code under test)
     pass
+
+
+class Hang(Exception):
+    """Cases of the code under test did not return within the time limit (results of the cases that timed out)."""
+    def __init__(self, hung):
+        Exception.__init__(self, "%d case(s) did not return" % len(hung))
+        self.hung = hung
+
+
+HANG_LIMIT = 6          # so many cases that do not return end the run at once (a change that loops would otherwise
+                        # keep every worker busy for cases x time limit)
 
 
 # where a metafile lives / what it is called: '%' and braces (format strings), blanks, non-ASCII, upper-case extension
@@ -344,12 +355,23 @@ def run_cases(fn, cases, timeout=120, procs=None, chunksize=4, isolate=False):
     procs = procs or NCPU
     if not cases:
         return []
+    if os.environ.get("VERIF_CASE_TIMEOUT"):      # development aid
+        timeout = int(os.environ["VERIF_CASE_TIMEOUT"])
     tmproot()  # create before fork so that children share it
     ctx = mp.get_context("fork")
     # isolate: every case in a brand-new process (fresh import of the code under test), so that
     # process-lifetime state of the code (C09) cannot leak from one case into another
     with ctx.Pool(procs, initializer=_worker_init, maxtasksperchild=1 if isolate else 200) as pool:
-        res = pool.map(_run_case, [(fn, c, timeout) for c in cases], chunksize=1 if isolate else chunksize)
+        res, hung = [], []
+        for r in pool.imap(_run_case, [(fn, c, timeout) for c in cases], chunksize=1 if isolate else chunksize):
+            res.append(r)
+            if isinstance(r, dict) and r.get("status") == "timeout" and "clauses" not in r:
+                hung.append(r)
+                if len(hung) >= HANG_LIMIT:
+                    pool.terminate()
+                    raise Hang(hung)
+    if hung:
+        raise Hang(hung)
     for r in res:
         if isinstance(r, dict) and "_driver_crash" in r:
             raise Machinery("the harness driver crashed on case %s\n%s" % (json.dumps(r["case"], default=str)[:600], r["_driver_crash"]))
